@@ -64,15 +64,24 @@ def _block(btype, body, e):
     return struct.pack(e + "II", btype, n) + body + b"\x00" * pad + struct.pack(e + "I", n)
 
 
-def pcapng(items, le=True, tsresol=None, tsoffset=None, snaplen=262144, junk_blocks=False):
-    """items: list of ('pkt', ts_us:int, frame) | ('dsb', bytes) | ('raw', btype, body)"""
+def pcapng(items, le=True, tsresol=None, tsoffset=None, snaplen=262144, junk_blocks=False, offset_first=False, extra_opts=False, epb_opts=False):
+    """items: list of ('pkt', ts_us:int, frame) | ('dsb', bytes) | ('raw', btype, body)
+    offset_first: write if_tsoffset before if_tsresol in the IDB (pcapng prescribes no option order);
+    extra_opts: unrelated options in the SHB (hardware, os, userappl) and IDB (if_name, if_description, if_os, if_fcslen, a custom one);
+    epb_opts: options on the packet blocks (epb_flags, a comment)"""
     e = "<" if le else ">"
-    out = [_block(0x0A0D0D0A, struct.pack(e + "IHHq", 0x1A2B3C4D, 1, 0, -1), e)]
+    shb_opts = b""
+    if extra_opts:
+        shb_opts = _opt(2, b"x86_64 harness", e) + _opt(3, b"Linux 6.1", e) + _opt(4, b"tleverif netsynth", e) + _opt(0, b"", e)
+    out = [_block(0x0A0D0D0A, struct.pack(e + "IHHq", 0x1A2B3C4D, 1, 0, -1) + shb_opts, e)]
+    o_res = _opt(9, bytes([tsresol]), e) if tsresol is not None else b""
+    o_off = _opt(14, struct.pack(e + "q", tsoffset), e) if tsoffset is not None else b""
     opts = b""
-    if tsresol is not None:
-        opts += _opt(9, bytes([tsresol]), e)
-    if tsoffset is not None:
-        opts += _opt(14, struct.pack(e + "q", tsoffset), e)
+    if extra_opts:
+        opts += _opt(2, b"eth0", e) + _opt(3, b"uplink", e)
+    opts += (o_off + o_res) if offset_first else (o_res + o_off)
+    if extra_opts:
+        opts += _opt(12, b"Linux", e) + _opt(13, b"\x04", e) + _opt(1, b"interface comment", e)
     if opts:
         opts += _opt(0, b"", e)
     if junk_blocks:
@@ -84,14 +93,18 @@ def pcapng(items, le=True, tsresol=None, tsoffset=None, snaplen=262144, junk_blo
         num, den = 1, 2 ** (tsresol & 0x7F)
     else:
         num, den = 1, 10 ** tsresol
-    for it in items:
+    for n, it in enumerate(items):
         if it[0] == "pkt":
             _, ts_us, frame = it
             if tsoffset:
                 ts_us -= tsoffset * 10 ** 6
             ticks, rem = divmod(ts_us * den, 10 ** 6)
             assert rem == 0, "timestamp not representable at this resolution"
+            assert ticks >= 0, "timestamp before the interface offset"
             body = struct.pack(e + "IIIII", 0, ticks >> 32, ticks & 0xFFFFFFFF, len(frame), len(frame)) + frame
+            if epb_opts:
+                body += b"\x00" * ((-len(body)) % 4)
+                body += _opt(2, struct.pack(e + "I", 1 + (n & 1)), e) + (_opt(1, b"pkt %d" % n, e) if n % 3 == 0 else b"") + _opt(0, b"", e)
             out.append(_block(6, body, e))
         elif it[0] == "dsb":
             out.append(_block(10, struct.pack(e + "II", 0x544C534B, len(it[1])) + it[1], e))
